@@ -206,6 +206,8 @@ def check(rep, F, tier, replay=None):
                 rep.violation("SUB", "%s|raw|%s" % (key, op), "%s uses a raw %s on %s" % (key, op, ty), {})
     from ruleutil import placeholder_full_rule
     placeholder_full_rule(rep, F)
+    from ruleutil import who_assets_rule
+    who_assets_rule(rep, F)
     return rep.finish(
         EXPLANATION,
         ["min_ada_for_output is C07's concern", "BigNum::div_floor(100) is exact floor division (divisor constant non-zero)"],
